@@ -80,7 +80,13 @@ def run(ctx: core.Ctx) -> None:
     ctx.extra["ladders"] = summary
     # random runs: StartsAtZero / Monotone / Ceiling on every family and schedule
     n = 100 if ctx.quick else 1200
-    raws2 = sc.trace_runs(ctx, sc.gen_configs(ctx.seed + 2, n, 80 if ctx.quick else 400), "C03", want_resid=False, want_rf=True)
+    cfgs2 = sc.gen_configs(ctx.seed + 2, n, 80 if ctx.quick else 400)
+    # long histories (more than 4096 and more than 8192 time levels): nothing in the recovery post-processing may depend on the length
+    cfgs2 += [{"kind": "single", "table": "synth_z:0.0002", "nx": 12, "pf": 1500.0, "pi": 8000.0, "grid": "quadratic", "nt": 4500,
+               "tend": 2.0, "sched": "stepdown", "seed": 4500},
+              {"kind": "ideal", "table": "pvt_gas", "nx": 10, "pf": 2000.0, "pi": 8000.0, "grid": "quadratic", "nt": 8300,
+               "tend": 3.0, "sched": "none", "seed": 8300}]
+    raws2 = sc.trace_runs(ctx, cfgs2, "C03", want_resid=False, want_rf=True)
     ctx.extra["repo_tests"] = sc.repo_test_traces(ctx, "C03", ["tests/flow/test_reservoir.py", "tests/forecast/test_forecast.py", "tests/test_plots.py"], False)
     if not ctx.quick:   # the documentation notebooks, cell by cell (those that need the network stop at that cell)
         ctx.extra["notebooks"] = sc.repo_test_traces(ctx, "C03", sc.NOTEBOOKS, False, module="bbv.drivers.notebooks")
